@@ -544,13 +544,13 @@ CHECKS['C18'] = dict(
     level='model_checking',
     engine='E4 schedule explorer',
     technique='stateless model checking of the implementation: real pthreads serialised by a cooperative scheduler at every synchronisation point (atomic operation, static-initialisation guard, thread start/exit), iterative preemption bounding 0,1,2 followed by unbounded depth-first search with state caching; happens-before (vector-clock) race detection over every load and store reported by compiler instrumentation (-fsanitize=thread, linked against an own runtime), allocation shadow, and bit-wise comparison of every thread\'s results with a sequential run on every explored schedule',
-    level_text='Programs: all 225 ordered pairs of 15 operations (evaluate; copy+destroy of spline, support and grid; a+b, a*b, a-b, predicates; operator application incl. spline factor; bilinear/linear forms; generateBSplines; isZero with its function-local static; destruction of thread-owned copies sharing the grid; support algebra; combination with a spline on an equal grid held in a distinct object; X<2>, X<4>, Dx<2>; linearCombination, integrate<3>, product with an interval-free spline; move construction/assignment of the owned copy, getData and a new Grid over the shared storage; copy + use + destruction of a generator, an operator expression with a spline factor and both forms; construction of thread-private grids, generators, bases and splines from scratch) on shared const objects, further pairs with a class-type scalar that is neither arithmetic nor trivially copyable (guarded static initialisation; code paths chosen for heavy scalars), including every operation against itself, 3-thread and 2x2-operation programs (thorough: all 455 unordered triples and all 2x2-operation programs over the five operations that copy, destroy or lazily initialise). For each program every schedule with at most 2 preemptions is covered (bounds 0, 1, 2 run to completion); the unbounded state-cached search is then run under an execution cap and completes for the smaller programs (counters say for how many). With synchronisation confined to read-modify-write chains on reference counts, one preemption already places any two code segments of two threads concurrently, so every potential race between segments is examined within the bound. On every execution: no pair of conflicting accesses unordered by happens-before, no use after free / double free, schedule-independent set of live blocks, no deadlock, per-operation result digests identical to the operation run alone.',
+    level_text='Programs: all 225 ordered pairs of 15 operations (evaluate; copy+destroy of spline, support and grid; a+b, a*b, a-b, predicates; operator application incl. spline factor; bilinear/linear forms; generateBSplines; isZero with its function-local static; destruction of thread-owned copies sharing the grid; support algebra; combination with a spline on an equal grid held in a distinct object; X<2>, X<4>, Dx<2>; linearCombination, integrate<3>, product with an interval-free spline; move construction/assignment of the owned copy, getData and a new Grid over the shared storage; copy + use + destruction of a generator, an operator expression with a spline factor and both forms; construction of thread-private grids, generators, bases and splines from scratch) on shared const objects, further pairs with a class-type scalar that is neither arithmetic nor trivially copyable (guarded static initialisation; code paths chosen for heavy scalars), including every operation against itself, 3-thread and 2x2-operation programs (thorough: all 680 unordered triples and all 2x2-operation programs over the five operations that copy, destroy or lazily initialise). For each program every schedule with at most 2 preemptions is covered (bounds 0, 1, 2 run to completion); the unbounded state-cached search is then run under an execution cap and completes for the smaller programs (counters say for how many). With synchronisation confined to read-modify-write chains on reference counts, one preemption already places any two code segments of two threads concurrently, so every potential race between segments is examined within the bound. On every execution: no pair of conflicting accesses unordered by happens-before, no use after free / double free, schedule-independent set of live blocks, no deadlock, per-operation result digests identical to the operation run alone.',
     level_note='The harness TU is the real library code compiled with -fsanitize=thread; libstdc++ header code is instrumented too, libstdc++.so/libc internals are not (operator new/delete, memcpy/memmove/memset and the guard functions are interposed). Scheduler hand-offs are not happens-before edges. Sequentially consistent interleavings only; under _GLIBCXX_TSAN libstdc++ disables its double-word fast path in shared_ptr release, so that path is not covered. 2-3 threads, 1-2 operations each. A free-running pass of the same bodies under the real ThreadSanitizer runtime (unit tsan-free: all operation pairs, both scalar variants, repeated; thorough: all triples) is a secondary detector for code the instrumentation cannot see; it is not the deciding step.',
     units=c18_units,
     deadline=dict(quick=600, thorough=4200),
     rule='each evaluation is one complete (or state-cache-pruned) execution of a program under one schedule in a forked child; distinct_nontrivial = distinct orders in which the threads performed their synchronisation operations, summed over programs. counters: programs, executions, states, transitions, atomic/guard/plain access counts observed by the runtime.',
-    bounds=dict(quick='291 programs: 225 pairs + 37 class-scalar pairs + 18 triples + 10 2x2 programs; every schedule with <= 2 preemptions; unbounded search granted 6000 further executions per program',
-                thorough='all pairs, all 455 unordered triples, 576 2x2-operation programs; every schedule with <= 2 preemptions; unbounded search granted 8000 further executions per program'),
+    bounds=dict(quick='291 programs: 225 pairs + 37 class-scalar pairs + 18 triples + 10 2x2 programs; every schedule with <= 2 preemptions; unbounded search granted 600 further executions per program',
+                thorough='all pairs, all 680 unordered triples, 576 2x2-operation programs; every schedule with <= 2 preemptions; unbounded search granted 8000 further executions per program'),
     guards=dict(func=c18_guard, counters=['programs', 'executions', 'states', 'transitions'], classes=['threads:2:ops:1:variant0', 'threads:3:ops:1:variant0', 'threads:2:ops:2:variant0', 'threads:2:ops:1:variant1']),
     mc_note='states = distinct abstract states at scheduling points (per-thread progress, values observed, vector clocks, contents and clocks of all synchronisation words); transitions = scheduling points executed beyond replayed prefixes; every trace is an execution of the implementation.',
     assumptions=['data-race freedom makes interleavings at synchronisation points sufficient; any data race is itself reported', 'sequential consistency'],
